@@ -17,8 +17,29 @@ import (
 	"sync/atomic"
 	"time"
 
+	"bytes"
+	"io"
+
+	"cuelabs.dev/go/oci/ociregistry"
 	"cuelabs.dev/go/oci/ociregistry/ocimem"
+	"github.com/opencontainers/go-digest"
 )
+
+// consultingReader is blob content whose producer asks the registry something before it
+// delivers its first byte: a push that kept the registry locked while reading its content
+// would never finish.
+type consultingReader struct {
+	ask  func()
+	rest io.Reader
+}
+
+func (c *consultingReader) Read(p []byte) (int, error) {
+	if c.ask != nil {
+		c.ask()
+		c.ask = nil
+	}
+	return c.rest.Read(p)
+}
 
 func init() { commands["conc"] = concCmd }
 
@@ -500,6 +521,22 @@ func raceSweep(cat *Catalog, rnd *rand.Rand, stack string, rounds int) error {
 				}
 			}(g)
 		}
+		wg.Add(1)
+		go func() {
+			defer wg.Done()
+			for i := 0; i < 4; i++ {
+				data := []byte(fmt.Sprintf("content-%d-%d", round, i))
+				desc := ociregistry.Descriptor{MediaType: "application/octet-stream", Digest: digest.FromBytes(data), Size: int64(len(data))}
+				ask := func() {
+					if rd, err := top.GetTag(ctx, "r1", "t1"); err == nil {
+						rd.Close()
+					}
+					for range top.Repositories(ctx, "") {
+					}
+				}
+				top.PushBlob(ctx, "r3", desc, &consultingReader{ask: ask, rest: bytes.NewReader(data)})
+			}
+		}()
 		swept := make(chan struct{})
 		go func() { wg.Wait(); close(swept) }()
 		select {
